@@ -246,6 +246,75 @@ def job_scalar(pl, res, rng):
                           {"case": tag, "radii": list(rs), "relative_errors": errs, "bound_at_larger_radius": bound})
 
 
+def job_maxwell(pl, res, rng):
+    """Maxwell potentials: curl E = ik H and div H = 0 hold for the quadrature sums themselves (finite-difference accuracy);
+    curl H = -ik E and div E = 0 use a surface integration by parts and hold up to the regular quadrature error, tested
+    as decay with the quadrature order.  Far fields: translation law."""
+    import bempp_cl.api as api
+    from bempp_cl.api.operators import potential, far_field
+    a = np.array([[1.0, 0.25, 0.0], [0.0, 0.8, 0.125], [0.0, 0.0, 0.625]])
+    grid = K.octahedron(distort=a)
+    rwg = api.function_space(grid, "RWG", 0)
+    coef = rng.uniform(-1, 1, rwg.global_dof_count) + 1j * rng.uniform(-1, 1, rwg.global_dof_count)
+    f = api.GridFunction(rwg, coefficients=coef)
+    pts = np.array([[2.0, 0.3, 0.4], [0.2, -2.5, 1.0], [-1.0, 1.0, 3.0]]).T
+    h = 1e-3
+    sten = [pts]
+    for i in range(3):
+        e = np.zeros((3, 1))
+        e[i] = h
+        sten += [pts + e, pts - e]
+    sten = np.hstack(sten)
+    n = pts.shape[1]
+
+    def d(F, comp, i):
+        return (F[comp, (1 + 2 * i) * n:(2 + 2 * i) * n] - F[comp, (2 + 2 * i) * n:(3 + 2 * i) * n]) / (2 * h)
+
+    def curl(F):
+        return np.array([d(F, 2, 1) - d(F, 1, 2), d(F, 0, 2) - d(F, 2, 0), d(F, 1, 0) - d(F, 0, 1)])
+
+    def div(F):
+        return d(F, 0, 0) + d(F, 1, 1) + d(F, 2, 2)
+    for k in (1.3 + 0j, 0.9 + 0.4j):
+        r_ibp = {}
+        for order in (3, 6, 9):
+            par = api.utils.parameters.DefaultParameters()
+            par.quadrature.regular = order
+            E = np.asarray(potential.maxwell.electric_field(rwg, sten, k, parameters=par).evaluate(f))
+            H = np.asarray(potential.maxwell.magnetic_field(rwg, sten, k, parameters=par).evaluate(f))
+            E0, H0 = E[:, :n], H[:, :n]
+            scale = float(max(np.abs(E0).max(), np.abs(H0).max()))
+            tag = "octahedron RWG k=%s regular order %d" % (k, order)
+            r1 = float(np.abs(curl(E) - 1j * k * H0).max()) / scale
+            r2 = float(np.abs(div(H)).max()) / scale
+            check(res, r1 <= 1e-4, "C08 potential.maxwell: curl E != ik H", "finite-difference curl of the electric "
+                  "potential differs from ik times the magnetic potential", {"case": tag, "relative_residual": r1})
+            check(res, r2 <= 1e-4, "C08 potential.maxwell: div H != 0", "finite-difference divergence of the magnetic "
+                  "potential is not zero", {"case": tag, "relative_residual": r2})
+            r_ibp[order] = [float(np.abs(curl(H) + 1j * k * E0).max()) / scale, float(np.abs(div(E)).max()) / scale]
+        res["search"]["worst"]["maxwell curlH+ikE, divE by regular order (3,6,9) k=%s" % k] = [r_ibp[o] for o in (3, 6, 9)]
+        for j, nm in ((0, "curl H != -ik E"), (1, "div E != 0")):
+            a3, a6, a9 = r_ibp[3][j], r_ibp[6][j], r_ibp[9][j]
+            check(res, a9 <= 0.5 * a3 + 1e-5 and a9 <= 2e-3, "C08 potential.maxwell: %s up to quadrature error" % nm,
+                  "the residual does not decay with the regular quadrature order",
+                  {"k": str(k), "relative_residual_orders_3_6_9": [a3, a6, a9]})
+        # far fields: translation law
+        xhat = np.array([K.unit(rng.normal(size=3)) for _ in range(4)]).T
+        tvec = np.array([0.3, -0.2, 0.45])
+        gt = api.Grid(grid.vertices + tvec[:, None], grid.elements, grid.domain_indices)
+        rwgt = api.function_space(gt, "RWG", 0)
+        for nm in ("electric_field", "magnetic_field"):
+            ff = np.asarray(getattr(far_field.maxwell, nm)(rwg, xhat, k).evaluate(f))
+            fft = np.asarray(getattr(far_field.maxwell, nm)(rwgt, xhat, k).evaluate(api.GridFunction(rwgt, coefficients=coef)))
+            want = ff * np.array([cmath.exp(-1j * k * float(np.dot(xhat[:, j], tvec))) for j in range(xhat.shape[1])])[None, :]
+            scale = float(np.abs(ff).max()) + 1e-300
+            sig = ("C08 far_field.maxwell.%s ignores imag(k): translation law fails for complex k" % nm) if k.imag != 0 \
+                else "C08 far_field.maxwell.%s violates the translation law (real k)" % nm
+            check(res, float(np.abs(fft - want).max()) <= 1e-10 * scale * math.exp(abs(k.imag) * 3), sig,
+                  "translating the grid by t does not multiply the Maxwell far field by exp(-i k xhat.t)",
+                  {"k": str(k), "maxdiff": float(np.abs(fft - want).max()), "scale": scale})
+
+
 def main():
     pl = K.payload()
     rng = np.random.default_rng(int(os.environ.get("VERIF_SEED", "0")))
@@ -267,6 +336,8 @@ def main():
                 K.selftest_numba(pl["numba"], rng, 10 if pl["strength"] == "quick" else 100, disagree, count,
                                  res["corr"]["samples"], jit=False, names=names)
             job_scalar(pl, res, rng)
+        elif pl["job"] == "maxwell":
+            job_maxwell(pl, res, rng)
         res["corr"]["disagreements"] = res["corr"]["disagreements"][:40]
     except Exception:
         res["crash"] = traceback.format_exc()[-3000:]
